@@ -35,14 +35,39 @@ func Equal(a, b any) bool { //nolint: gocyclo
 		return ra.Convert(float64Type).Float() == rb.Convert(float64Type).Float()
 	case reflect.String:
 		return ra.String() == rb.String()
+	case reflect.Map:
+		return equalMaps(ra, rb)
 	case reflect.Ptr:
 		if rb.Kind() == reflect.Ptr && (ra.IsNil() || rb.IsNil()) {
 			return ra.IsNil() == rb.IsNil()
 		}
 		return a == b
 	default:
+		return safeEqual(a, b)
+	}
+}
+
+// equalMaps reports whether two maps have the same set of keys, with Equal values.
+func equalMaps(ra, rb reflect.Value) bool {
+	if ra.Type().Key() != rb.Type().Key() || ra.Len() != rb.Len() {
+		return false
+	}
+	for iter := ra.MapRange(); iter.Next(); {
+		eb := rb.MapIndex(iter.Key())
+		if !eb.IsValid() || !Equal(iter.Value().Interface(), eb.Interface()) {
+			return false
+		}
+	}
+	return true
+}
+
+// safeEqual is a == b, except that operands of an uncomparable type
+// (for example a struct that holds a slice) are unequal instead of a run-time panic.
+func safeEqual(a, b any) bool {
+	if a == nil || b == nil {
 		return a == b
 	}
+	return reflect.ValueOf(a).Comparable() && a == b
 }
 
 // Less returns a bool indicating whether a < b.
